@@ -3,12 +3,17 @@
 package c03
 
 import (
+	"bytes"
 	"context"
 	"encoding/json"
+	"errors"
+	"io"
+	"net/http"
 	"time"
 
 	jsonrpc "github.com/filecoin-project/go-jsonrpc"
 
+	"gjvharness/hx"
 	"gjvharness/verif"
 )
 
@@ -292,4 +297,84 @@ func HarnessNotify() {
 	closer()
 	verif.Quiesce()
 	verif.Reach("notify-done")
+}
+
+// ---- HTTP: the library must not opt in to transport-level re-sending ----
+
+// replayTransport models net/http.Transport's documented replay rule: when a
+// request on a reused connection fails before any response byte arrives, the
+// transport re-sends it iff the request is replayable; a POST is replayable only
+// if it carries an Idempotency-Key / X-Idempotency-Key header (and a rewindable body).
+type replayTransport struct {
+	h        http.Handler
+	cutAfter bool // the connection is cut after the handler ran, before the response
+	sends    int
+}
+
+func (t *replayTransport) serve(r *http.Request, body []byte) *http.Response {
+	t.sends++
+	r2 := r.WithContext(r.Context())
+	r2.Body = io.NopCloser(bytes.NewReader(body))
+	rec := &hx.Recorder{Hdr: http.Header{}}
+	t.h.ServeHTTP(rec, r2)
+	st := rec.Status
+	if st == 0 {
+		st = 200
+	}
+	return &http.Response{StatusCode: st, Status: http.StatusText(st), Header: rec.Hdr, Body: io.NopCloser(&rec.Buf), Request: r}
+}
+
+func (t *replayTransport) RoundTrip(r *http.Request) (*http.Response, error) {
+	body, _ := io.ReadAll(r.Body)
+	resp := t.serve(r, body)
+	if !t.cutAfter {
+		return resp, nil
+	}
+	t.cutAfter = false
+	replayable := r.Header.Get("Idempotency-Key") != "" || r.Header.Get("X-Idempotency-Key") != "" || r.Method == "GET" || r.Method == "HEAD"
+	if replayable {
+		return t.serve(r, body), nil
+	}
+	return nil, errors.New("EOF")
+}
+
+type HH struct{ execs map[int64]int }
+
+func (h *HH) Echo(ctx context.Context, tok int64) (int64, error) { h.execs[tok]++; return tok, nil }
+func (h *HH) Note(tok int64) error                               { h.execs[tok]++; return nil }
+
+// HarnessHTTPAtMostOnce: over HTTP a connection cut after the handler ran must
+// surface as an error to the caller, never as a silent second execution.
+func HarnessHTTPAtMostOnce() {
+	h := &HH{execs: map[int64]int{}}
+	srv := jsonrpc.NewServer()
+	srv.Register("NS", h)
+	tr := &replayTransport{h: srv}
+	var c C
+	closer, err := jsonrpc.NewMergeClient(context.Background(), "http://server/rpc", "NS", []interface{}{&c}, nil,
+		jsonrpc.WithHTTPClient(&http.Client{Transport: tr}))
+	verif.Assert(err == nil, "client-created")
+	defer closer()
+	warm := verif.Int("warm")
+	_, werr := c.Echo(context.Background(), warm) // a first call so that the connection is a reused one
+	verif.Assert(werr == nil, "warm-up-call")
+	tok := verif.Int("tok")
+	verif.Assume(tok != warm && tok+1 != warm)
+	tr.cutAfter = verif.Bool("cut")
+	tagged := verif.Bool("retry_tagged")
+	var v int64
+	var cerr error
+	if tagged {
+		v, cerr = c.Retry(context.Background(), tok)
+	} else {
+		v, cerr = c.Echo(context.Background(), tok)
+	}
+	verif.Assert(h.execs[tok] <= 1, "at-most-one-execution-over-http")
+	if cerr == nil {
+		verif.Assert(v == tok && h.execs[tok] == 1, "answered-call-executed-exactly-once")
+	}
+	nerr := c.Note(tok + 1)
+	verif.Assert(nerr == nil, "notification-returns-nil")
+	verif.Assert(h.execs[tok+1] <= 1, "notification-at-most-once")
+	verif.Reach("http-at-most-once-done")
 }
